@@ -53,7 +53,8 @@ PROPERTY = "C19"
 DRIVER = "drv_c19"
 PROPS = ["PartituraModel.Props.C19", "PartituraModel.Props.C19Write", "PartituraModel.Props.C19MeiWrite",
          "PartituraModel.Props.C19Dispatch", "PartituraModel.Props.C19Sections", "PartituraModel.Props.C19Divs",
-         "PartituraModel.Props.C19Endings", "PartituraModel.Props.C19Tables", "PartituraModel.Props.C19TieOrder"]
+         "PartituraModel.Props.C19Endings", "PartituraModel.Props.C19Tables", "PartituraModel.Props.C19TieOrder",
+         "PartituraModel.Props.C19KernPaths"]
 TRUSTED = [
     "lxml tokenisation of the MEI text into open/close events (the harness does nothing else to the document), also of the "
     "text save_mei writes; numpy loadtxt/genfromtxt splitting of kern rows into cells, np.savetxt joining them",
@@ -64,6 +65,9 @@ TRUSTED = [
     "save_kern's preprocessing (add_measures, fill_rests) and fifths_mode_to_key_name (MEI @pname): their results are the writer models' input",
     "str.lower of non-ASCII extensions in load_score (the model lower-cases ASCII); the readers are replaced by recorders "
     "when the choice of reader is compared on generated paths (the real readers run in the file-based dispatch case)",
+    "the sub-spine bookkeeping stream observes importkern.parse_by_voice through a recorder wrapped around it while the real "
+    "_handle_kern_with_spine_splitting runs on the document; if either function no longer exists under that name the stream is "
+    "silently absent, also when parse_by_voice returns another shape (the loaded notes and voices are still compared)",
     "harness/translate_c19.py reads the if / elif chains of importmei.MeiParser (layer items, section items, children of <score>, "
     "barline values, grace types, defaults, multiRest limit, the @staff attribute) off the source text with ast; a chain rewritten into "
     "another form makes the extraction fail (extractionOk = false: Props/C19Tables stops building) rather than go unnoticed",
@@ -84,6 +88,12 @@ PARTIAL = [
     "kern: *x exchanges are not generated (importer and semantics both ignore the exchange; not in the property's subset); mixed "
     "*part tags only in the shape 'some equal, not all'; spines of other representations (**dynam, **text) only as the leftmost / "
     "rightmost spine",
+    "kern sub-spine bookkeeping (Props/C19KernPaths): proved is that parse_by_voice's `voices + splits - joins` (Model/KernPbv.lean, "
+    "equal to the real function's cell counts on every generated document) is the semantics' number of columns for the LEFTMOST spine "
+    "of a document, row after row (parse_by_voice_document / _first_call), and for any spine within one row (kern_spine_width); that "
+    "popping the taken cells makes the next spine the leftmost one (the loop of _handle_kern_with_spine_splitting, modelled as "
+    "pbvSpines) is compared, not proved; rows are assumed clean (no `*-` before the terminating row, no `*^` / `*v` cell on a data or "
+    "barline row - the semantics refuses / ignores those, the importer would count them; not generated)",
     "MEI: @tie attributes (a TODO of the importer; the property names ties as elements), multiRest of more than one measure "
     "(refused by importer and model alike), nested tuplets, staffDef changes inside a section, tupletSpan / beamSpan as the only "
     "encoding of a tuplet are outside the generated subset; control events carrying a LIST in @dur (`dur=\"2 8\"`) are not generated "
@@ -111,7 +121,9 @@ RULE = ("abstract scores (1-3 staves x 1-2 voices x 1-4 measures; 13 meters incl
         "(main spines or *^ / *v sub-spines also in mid-measure, one *part / *I group, separate parts or mixed *part tags, *staff, *clef, "
         "*k[], *M, *MM, barline styles, a%b reciprocals, comments, decorations, a **dynam / **text spine left or right of the kern spines; "
         "a second writer with up to four simultaneous sub-spines per spine, split one by one or several in one row, joined two by two or "
-        "all at once (`*v *v *v`)) and as MEI (meter/key/clef as attributes or children of "
+        "all at once (`*v *v *v`), the spine paths of two different spines also in ONE row (`*v *v *^ *`, never `*v` of two spines "
+        "side by side); for every kern document also the number of cells parse_by_voice takes from every row for every spine, "
+        "observed on the real function, against its Lean mirror and against the columns of the semantics) and as MEI (meter/key/clef as attributes or children of "
         "staffDef / scoreDef, @ppq and/or @dur.ppq or neither, nested staffGrp and sections, <ending>s, rptstart / rptend, beams, tuplets, "
         "chords, accid / accid.ges / <accid>, mRest, multiRest num=1, space with and without @dur / xml:id, incomplete layers, <tie> elements, "
         "scoreDef meter and key changes; the measures cut into 1-3 sibling top-level sections, nested sections to depth 3, empty sections, "
@@ -137,7 +149,9 @@ LEVEL_TEXT = ("Lean theorems over all inputs: the denotational semantics of kern
               "additivity, tie joining note by note, grace notes, exact divisions, inferred ppq); END TO END through the MEI state machine: "
               "every element with @dur, whatever its name, enters the inferred divisions, and for every document without declared divisions "
               "these make every onset, duration and measure boundary of every denoted part whole (no side condition); a note stands on its "
-              "own @staff, else its chord's, else the enclosing staff, and does not pass its @staff on; export_import for both writers - "
+              "own @staff, else its chord's, else the enclosing staff, and does not pass its @staff on; the kern importer's sub-spine arithmetic (voices + splits - joins) counts, row after row of any accepted document "
+              "of clean rows, exactly the columns the semantics gives the leftmost spine, any number of splits and joins of any length "
+              "per row; export_import for both writers - "
               "for every Exportable part (explicit decidable predicate) the written document denotes every note with its onset, "
               "duration, spelling and staff, proved against the same semantics the importers are compared with; load_score picks "
               "the documented reader for every supported extension in any case and rejects all others; the MEI semantics collects every "
@@ -938,6 +952,39 @@ def prep_kern3(asc):
     return untie_last(a)
 
 
+def merge_path_rows(rows, meta):
+    """two consecutive rows of spine paths that belong to different spines become ONE row (one spine joins while another
+    splits or joins): the same document, read from the column layout in front of the first of them.  Not merged when a `*v`
+    of one spine would stand next to a `*v` of another (Humdrum joins ALL adjacent `*v`: not the same document)."""
+    out, p = [], 0
+    while p < len(rows):
+        r1 = rows[p]
+        if p in meta and p + 1 in meta:
+            r2, m1, m2 = rows[p + 1], meta[p], meta[p + 1]
+            s1 = {j for j, c in zip(m1, r1) if c != "*"}
+            s2 = {j for j, c in zip(m2, r2) if c != "*"}
+            if s1 and s2 and not (s1 & s2):
+                of2 = {}
+                for j, c in zip(m2, r2):
+                    of2.setdefault(j, []).append(c)
+                seen, merged = {}, []
+                for j, c in zip(m1, r1):
+                    if j in s2:
+                        merged.append(of2[j][seen.get(j, 0)])
+                        seen[j] = seen.get(j, 0) + 1
+                    else:
+                        merged.append(c)
+                clash = any(a == "*v" and b == "*v" and ja != jb
+                            for (a, ja), (b, jb) in zip(zip(merged, m1), list(zip(merged, m1))[1:]))
+                if not clash and all(seen.get(j, 0) == len(of2[j]) for j in s2):
+                    out.append(merged)
+                    p += 2
+                    continue
+        out.append(r1)
+        p += 1
+    return out
+
+
 def write_kern3(asc, lay, rng):
     """main spines = staves (bottom-up); the further voices of a staff are sub-spines that are split off (`*^`, one per
     interpretation row, always the last sub-spine) after the barline and joined two by two (`*v *v`) when a voice ends"""
@@ -946,6 +993,7 @@ def write_kern3(asc, lay, rng):
     lens = measure_lengths(asc)
     mains = list(reversed(range(nst)))               # staff index of every main spine
     rows = []
+    path_meta = {}                                   # row index of a row of spine paths -> main spine of every column
     active = [1] * len(mains)                        # number of columns of each main spine
 
     def cols_now():
@@ -987,6 +1035,7 @@ def write_kern3(asc, lay, rng):
                 # two by two, or (lay["joinall"]) all the sub-spines that end here in one `*v *v *v ...` row
                 t = active[i] - want + 1 if lay.get("joinall") else 2
                 rows.append(["*v" if (j == i and k >= active[i] - t) else "*" for (j, s_, k) in cn])
+                path_meta[len(rows) - 1] = [j for (j, s_, k) in cn]
                 for _ in range(t - 1):
                     active[i] -= 1
                     tie_state.pop((si, active[i]), None)
@@ -995,6 +1044,7 @@ def write_kern3(asc, lay, rng):
                 # one by one, or (lay["multi"]) as many of the last sub-spines as needed split in the same row
                 t = min(want - active[i], active[i]) if lay.get("multi") else 1
                 rows.append(["*^" if (j == i and k >= active[i] - t) else "*" for (j, s_, k) in cn])
+                path_meta[len(rows) - 1] = [j for (j, s_, k) in cn]
                 active[i] += t
         events = []
         for (i, si, k) in cols_now():
@@ -1020,8 +1070,11 @@ def write_kern3(asc, lay, rng):
             cn = cols_now()
             t = active[i] if lay.get("joinall") else 2
             rows.append(["*v" if (j == i and k >= active[i] - t) else "*" for (j, s_, k) in cn])
+            path_meta[len(rows) - 1] = [j for (j, s_, k) in cn]
             active[i] -= t - 1
     row_all(lambda i, si, k: "*-")
+    if lay.get("merge"):
+        rows = merge_path_rows(rows, path_meta)
     return "\n".join("\t".join(r) for r in rows) + "\n", mains
 
 
@@ -1115,6 +1168,7 @@ def eval_kern3(d):
         tx = impl_texts(infos, "kern")
         ev.impl += [tx["notes"], tx["joined"], tx["meas"], tx["sigs"]]
         oracle_compare(exp, infos, ev.oracle)
+    pbv_stream(ev, text)
     ev.key = "kern3:" + text if infos and any(i["notes"] for i in infos) else None
     return ev
 
@@ -2090,6 +2144,70 @@ def kern_request(what, text):
     return "kern %s %d %s" % (what, len(rows), " ".join("%d %s" % (len(r), " ".join(W.s(c) for c in r)) for r in rows))
 
 
+def pbv_observe(text):
+    """sub-spine bookkeeping of the real importer: the real `_handle_kern_with_spine_splitting` is run on the document with
+    `parse_by_voice` wrapped by a recorder; per call (= per spine of the header), per line: how many cells it took.
+    None when the two functions do not exist under these names (nothing is compared then)."""
+    import partitura.io.importkern as ik
+
+    real = getattr(ik, "parse_by_voice", None)
+    outer = getattr(ik, "_handle_kern_with_spine_splitting", None)
+    if real is None or outer is None:
+        return None
+    calls = []
+
+    def rec(file, *a, **kw):
+        res = real(file, *a, **kw)
+        try:
+            calls.append((len(file), [(int(l), int(v)) for l, v in res[1]]))
+        except Exception:  # another return shape: nothing to observe (not a failure of the importer)
+            calls.append(None)
+        return res
+
+    d = tempfile.mkdtemp(prefix="c19-")
+    path = os.path.join(d, "doc.krn")
+    try:
+        with open(path, "w", encoding="utf-8") as f:
+            f.write(text)
+        ik.parse_by_voice = rec
+        try:
+            import warnings
+            with warnings.catch_warnings():
+                warnings.simplefilter("ignore")
+                outer(path)
+        except Exception:
+            return "err"
+        finally:
+            ik.parse_by_voice = real
+    finally:
+        try:
+            os.remove(path)
+            os.rmdir(d)
+        except OSError:
+            pass
+    if any(c is None for c in calls):
+        return None
+    out = []
+    for n, vi in calls:
+        cnt = [0] * n
+        for l, _v in vi:
+            cnt[l] += 1
+        out.append(cnt)
+    return out
+
+
+def pbv_stream(ev, text):
+    """`kpbv code`: Model/KernPbv.lean (parse_by_voice as written) = the real calls; `kpbv sem`: the columns the semantics
+    gives every spine in front of every row = the same numbers (generated documents have no `*-` before the last row)"""
+    got = pbv_observe(text)
+    if got is None:
+        return
+    tx = "err" if got == "err" else W.f_list(lambda tr: W.f_list(W.f_int, tr), got)
+    for what in ("code", "sem"):
+        ev.requests.append(kern_request(what, text).replace("kern ", "kpbv ", 1))
+        ev.impl.append(tx)
+
+
 def load_text(text, suffix, loader=None, **kw):
     """write the document to a temporary file and load it with the real importer"""
     import partitura
@@ -2930,7 +3048,8 @@ def cases(rng, tier):
             seed = rng.getrandbits(48)
             r = random.Random(seed)
             yield {"k": "kern3", "asc": gen_asc3(r), "seed": seed,
-                   "lay": {"same_part": r.random() < 0.5, "multi": r.random() < 0.5, "joinall": r.random() < 0.5}}
+                   "lay": {"same_part": r.random() < 0.5, "multi": r.random() < 0.5, "joinall": r.random() < 0.5,
+                           "merge": r.random() < 0.5}}
         if i % 2 == 0:
             seed = rng.getrandbits(48)
             r = random.Random(seed)
@@ -3029,6 +3148,7 @@ def eval_kern(d):
         tx = impl_texts(infos, "kern")
         ev.impl += [tx["notes"], tx["joined"], tx["meas"], tx["sigs"]]
         oracle_compare(exp, infos, ev.oracle)
+    pbv_stream(ev, text)
     ev.key = "kern:" + text if infos and any(i["notes"] for i in infos) else None
     return ev
 
@@ -3420,6 +3540,10 @@ def distribution(descs, results):
                 feats["kern3_join_of_3_or_more"] += 1 if any(
                     any(r_[x:x + 3] == ["*v"] * 3 for x in range(len(r_))) for r_ in rows_) else 0
                 feats["kern3_several_splits_in_a_row"] += 1 if any(r_.count("*^") > 1 for r_ in rows_) else 0
+                feats["kern3_rows_with_paths_of_two_spines"] += 1 if (d["lay"].get("merge") and any(
+                    ("*^" in r_ or "*v" in r_) and len([1 for x in range(len(r_)) if r_[x] != "*" and (x == 0 or r_[x - 1] == "*")]) > 1
+                    and any(c_ == "*" for c_ in r_[r_.index(next(c for c in r_ if c != "*")):len(r_) - [c != "*" for c in r_][::-1].index(True)])
+                    for r_ in rows_ if r_ and all(c_ in ("*", "*^", "*v") for c_ in r_))) else 0
             if d["k"] in ("xkern", "xmei"):
                 feats["export_shuffled"] += 1 if (d.get("xopt") or {}).get("shuffle") else 0
                 feats["export_not_exportable"] += 1 if d.get("nonexp") else 0
@@ -3480,4 +3604,20 @@ def distribution(descs, results):
                 for sh in xstaff_shapes(a, d["opt"]):
                     feats["mei_xstaff_" + sh] += 1
     errs = sum(1 for r in results for x in r["impl"] if x == "err")
-    return {"by_kind": dict(c), "features": dict(feats), "error_observations": errs}
+    # sub-spine bookkeeping stream: observations and the shapes of the rows of spine paths they contain
+    pbv = Counter()
+    for r in results:
+        for rq, im in zip(r.get("requests", []), r.get("impl", [])):
+            if rq.startswith("kpbv code ") and isinstance(im, str) and im != "err":
+                pbv["observations(code+sem)"] += 2
+                trs = [[int(x) for x in tr.strip("[]").split(",") if x] for tr in im[1:-1].split("],[")]
+                pbv["max_columns_of_a_spine=%d" % max([max(tr) for tr in trs if tr] or [0])] += 1
+                for tr in trs:
+                    for a, b2 in zip(tr, tr[1:]):
+                        if b2 - a >= 2:
+                            pbv["rows_adding_2_or_more_columns"] += 1
+                        elif b2 - a <= -2:
+                            pbv["rows_removing_2_or_more_columns"] += 1
+                        elif b2 != a:
+                            pbv["rows_changing_1_column"] += 1
+    return {"by_kind": dict(c), "features": dict(feats), "error_observations": errs, "kern_subspine_bookkeeping": dict(pbv)}
